@@ -10,7 +10,7 @@ use swc_core::{
     ecma::{
         ast::*,
         atoms::Atom,
-        utils::{private_ident, quote_ident, quote_str},
+        utils::{is_valid_prop_ident, private_ident, quote_ident, quote_str},
         visit::{Visit, VisitMut, VisitMutWith, VisitWith},
     },
     plugin::errors::HANDLER,
@@ -1545,10 +1545,28 @@ fn jsx_member_expr_to_expr(JSXMemberExpr { obj, prop, span }: &JSXMemberExpr) ->
             JSXObject::Ident(ident) if ident.sym == "this" => {
                 Expr::This(ThisExpr { span: ident.span })
             }
-            JSXObject::Ident(ident) => Expr::Ident(ident.clone()),
+            JSXObject::Ident(ident) => {
+                if !is_valid_prop_ident(&ident.sym) {
+                    HANDLER.with(|handler| {
+                        handler.span_err(
+                            ident.span,
+                            "The object of a JSX member expression must be a valid identifier.",
+                        )
+                    });
+                }
+                Expr::Ident(ident.clone())
+            }
             JSXObject::JSXMemberExpr(expr) => jsx_member_expr_to_expr(expr),
         }),
-        prop: MemberProp::Ident(prop.clone()),
+        // JSX identifiers may contain `-`, which a member property name can't
+        prop: if is_valid_prop_ident(&prop.sym) {
+            MemberProp::Ident(prop.clone())
+        } else {
+            MemberProp::Computed(ComputedPropName {
+                span: prop.span,
+                expr: Box::new(Expr::Lit(Lit::Str(quote_str!(prop.sym.clone())))),
+            })
+        },
     })
 }
 
